@@ -11,7 +11,6 @@ import (
 	"testing"
 	"time"
 
-	rlog "github.com/alibaba/RedisShake/pkg/libs/log"
 	"github.com/alibaba/RedisShake/pkg/rdb"
 	utils "github.com/alibaba/RedisShake/redis-shake/common"
 	conf "github.com/alibaba/RedisShake/redis-shake/configure"
@@ -469,8 +468,7 @@ func c02Chunked(t *rapid.T) {
 		srv.Put(int(rec.DB), string(rec.Key), &mredis.Entry{Kind: "hash", Hash: map[string]string{"stale-field": "x", "field-000000": "old"}})
 	}
 	// debug records would format multi-megabyte payloads ("%v" of a byte slice): log at info level here
-	rlog.SetLevel(rlog.LEVEL_INFO)
-	defer rlog.SetLevel(rlog.LEVEL_ALL)
+	defer quietLog()()
 	hv := gen.Value{Kind: "hash"}
 	for i, f := range bh.fields {
 		hv.Hash = append(hv.Hash, gen.HE{Field: f, Value: bh.pairBytes[bh.valSpans[i][0]:bh.valSpans[i][1]]})
